@@ -24,6 +24,14 @@ BoolExprs == {
   [n |-> "demorgan_l", c |-> "b", e |-> NotE(AndE(P, Q))],
   [n |-> "demorgan_r", c |-> "b", e |-> OrE(NotE(P), NotE(Q))],
   [n |-> "and3",       c |-> "b", e |-> AndE(AndE(P, Q), OrE(P, NullB))],
+  (* boolean-algebra shapes the optimizer's OR/AND rewrites look for (common conjuncts lifted out of an OR) *)
+  [n |-> "absorb_or",   c |-> "b", e |-> OrE(P, AndE(P, Q))],
+  [n |-> "absorb_or_r", c |-> "b", e |-> OrE(AndE(Q, P), P)],
+  [n |-> "absorb_and",  c |-> "b", e |-> AndE(P, OrE(P, Q))],
+  [n |-> "distrib_common", c |-> "b", e |-> OrE(AndE(P, Q), AndE(P, NotE(Q)))],
+  [n |-> "distrib_subsumed", c |-> "b", e |-> OrE(AndE(P, Q), AndE(AndE(P, Q), IsNullE(P)))],
+  [n |-> "distrib_dup", c |-> "b", e |-> OrE(AndE(P, Q), AndE(P, Q))],
+  [n |-> "distrib_three", c |-> "b", e |-> OrE(OrE(AndE(P, Q), AndE(P, IsNullE(Q))), P)],
   [n |-> "or_true",    c |-> "b", e |-> OrE(P, True)],
   [n |-> "and_false",  c |-> "b", e |-> AndE(P, False)],
   [n |-> "or_null",    c |-> "b", e |-> OrE(P, NullB)],
@@ -57,7 +65,11 @@ IntExprs ==
        [n |-> "cmp_expr",     c |-> "b", e |-> CmpE("le", Arith("mul", A1, LitI(2)), Arith("add", B1, LitI(1)))],
        [n |-> "and_cmp",      c |-> "b", e |-> AndE(CmpE("ge", A1, LitI(1)), CmpE("lt", B1, LitI(2)))],
        [n |-> "or_cmp_null",  c |-> "b", e |-> OrE(CmpE("eq", A1, LitI(0)), IsNullE(B1))],
-       [n |-> "not_cmp",      c |-> "b", e |-> NotE(CmpE("lt", A1, B1))] }
+       [n |-> "not_cmp",      c |-> "b", e |-> NotE(CmpE("lt", A1, B1))],
+       [n |-> "absorb_or_cmp", c |-> "b", e |-> OrE(CmpE("ge", A1, LitI(1)), AndE(CmpE("ge", A1, LitI(1)), CmpE("lt", B1, LitI(2))))],
+       [n |-> "distrib_cmp",  c |-> "b", e |-> OrE(AndE(CmpE("ge", A1, LitI(1)), CmpE("lt", B1, LitI(2))), AndE(CmpE("ge", A1, LitI(1)), IsNullE(B1)))],
+       [n |-> "distrib_cmp_subsumed", c |-> "b", e |-> OrE(AndE(CmpE("ge", A1, LitI(1)), CmpE("lt", B1, LitI(2))),
+                                                            AndE(AndE(CmpE("ge", A1, LitI(1)), CmpE("lt", B1, LitI(2))), Eq(A1, B1)))] }
 
 VARIABLE c
 Init == c \in { [dom |-> "bool", n |-> x.n, c |-> x.c, e |-> x.e] : x \in BoolExprs }
